@@ -15,7 +15,10 @@ package embed_test
 //    larger/smaller), identical string, or the same file under another name (symlink, hard link,
 //    dir/./bin, dir/sub/../bin, relative path, source through the alias); a distinct destination
 //    leaves the source intact; a re-embed in place is either refused and leaves the first
-//    embedding intact, or embeds with the embedded file as its original;
+//    embedding intact, or embeds with the embedded file as its original; the embedded file is then
+//    stripped into every kind of destination (existing empty / shorter / longer file, in place
+//    under the identical string or another name, symlink to an existing longer file) and the
+//    output must be exactly the original, a plain binary that can be embedded into again;
 //  * any file: no reader panics; a config is only ever returned when the file carries a trailer
 //    whose length field lies inside the file, and then it is exactly the bytes the trailer
 //    designates; a reported original size lies inside [0, file size]; a stripped copy is a prefix
@@ -348,6 +351,180 @@ func (h *c36H) write(name string, data []byte, mode os.FileMode) string {
 	return p
 }
 
+// stripInto drives CopyBinaryWithoutConfig from the embedded file `emb` (which designates config
+// cfg and original binary bin) into one kind of destination: an existing empty / shorter / longer
+// file, the embedded file itself (identical string or another name of the same file), or a
+// symlink to an existing longer file. A successful strip must leave exactly the original binary at
+// the destination — which then behaves as a plain binary and can be embedded into again — and,
+// when the destination is another file, must leave the embedded file as it was. A refusal must
+// leave both files as they were.
+func (h *c36H) stripInto(phase string, ci int, rng *verifkit.Rand, emb string, cfg, bin []byte, how string) bool {
+	r := h.r
+	before, rerr := os.ReadFile(emb)
+	if rerr != nil {
+		r.Inconclusive("cannot re-read embedded file: " + rerr.Error())
+		return false
+	}
+	out := filepath.Join(h.dir, "strip.out")
+	lnk := filepath.Join(h.dir, "strip.alias")
+	defer os.Remove(out)
+	defer os.Remove(lnk)
+	sameFile := func(a, b string) bool {
+		sa, ea := os.Stat(a)
+		sb, eb := os.Stat(b)
+		return ea == nil && eb == nil && os.SameFile(sa, sb)
+	}
+	filler := func(n int, trailer bool) []byte {
+		f := bytes.Repeat([]byte{0xEE}, n)
+		if trailer && n >= 16 { // a stale tail that looks like a trailer
+			binary.LittleEndian.PutUint64(f[n-16:], uint64(rng.Intn(n-15)))
+			copy(f[n-8:], embed.Magic[:])
+		}
+		return f
+	}
+	kind := verifkit.Pick(rng, []string{"existing-empty", "existing-shorter", "existing-longer", "existing-longer", "existing-longer-trailer-tail",
+		"same-string", "same-string", "symlink-of-source", "hardlink-of-source", "dot-spelling-of-source", "symlink-to-existing-longer"})
+	dst, class := out, ""
+	var dstBefore []byte // contents of a pre-existing distinct destination
+	inPlace := false
+	unavailable := func() {
+		r.Add("strip_kind_unavailable:"+kind, 1)
+		kind = "existing-longer"
+	}
+	switch kind {
+	case "symlink-of-source":
+		if err := os.Symlink(emb, lnk); err != nil || !sameFile(lnk, emb) {
+			unavailable()
+		} else {
+			dst, inPlace = lnk, true
+		}
+	case "hardlink-of-source":
+		if err := os.Link(emb, lnk); err != nil || !sameFile(lnk, emb) {
+			unavailable()
+		} else {
+			dst, inPlace = lnk, true
+		}
+	case "dot-spelling-of-source":
+		d := filepath.Dir(emb) + string(filepath.Separator) + "." + string(filepath.Separator) + filepath.Base(emb)
+		if !sameFile(d, emb) {
+			unavailable()
+		} else {
+			dst, inPlace = d, true
+		}
+	case "symlink-to-existing-longer":
+		dstBefore = filler(len(bin)+1+rng.Intn(3000), rng.Bool())
+		h.write("strip.out", dstBefore, 0o600)
+		if err := os.Symlink(out, lnk); err != nil || !sameFile(lnk, out) {
+			unavailable()
+		} else {
+			dst = lnk
+		}
+	}
+	switch kind {
+	case "existing-empty":
+		dstBefore = []byte{}
+		h.write("strip.out", dstBefore, 0o600)
+		class = "@strip-to-existing-shorter"
+	case "existing-shorter":
+		dstBefore = filler(rng.Intn(len(bin)+1), false)
+		h.write("strip.out", dstBefore, 0o600)
+		class = "@strip-to-existing-shorter"
+	case "existing-longer", "existing-longer-trailer-tail":
+		dstBefore = filler(len(bin)+1+rng.Intn(3000), kind == "existing-longer-trailer-tail")
+		h.write("strip.out", dstBefore, 0o600)
+		class = "@strip-to-existing-longer"
+	case "symlink-to-existing-longer":
+		class = "@strip-to-existing-longer"
+	case "same-string":
+		dst, inPlace = emb, true
+		class = "@strip-in-place"
+	default:
+		class = "@strip-in-place-other-name"
+	}
+	r.Add("strip_dest:"+kind, 1)
+	how = fmt.Sprintf("%s, then CopyBinaryWithoutConfig into %s", how, kind)
+	w := map[string]any{"binary_len": len(bin), "config_len": len(cfg), "strip_destination": kind, "destination_len_before": len(dstBefore), "embedded_len": len(before)}
+	var err error
+	_, pv, stk := h.measure(func() { err = embed.CopyBinaryWithoutConfig(emb, dst) })
+	if pv != nil {
+		r.Violation("panic:CopyBinaryWithoutConfig:valid"+class, phase, ci, fmt.Sprintf("CopyBinaryWithoutConfig panicked: %v\n%s [%s]", pv, c36Stack(stk), how), w)
+		return false
+	}
+	ok := true
+	bad := func(key, detail string) {
+		ok = false
+		r.Violation(key+class, phase, ci, detail+" ["+how+"]", w)
+	}
+	embNow, _ := os.ReadFile(emb)
+	if err != nil {
+		// a refusal is acceptable, but it must not have touched either file
+		r.Add("strip_refused", 1)
+		if !bytes.Equal(embNow, before) {
+			bad("roundtrip:strip-refused-but-source-modified", fmt.Sprintf("CopyBinaryWithoutConfig returned %v and the embedded file changed from %d to %d bytes", err, len(before), len(embNow)))
+		}
+		if !inPlace {
+			if now, _ := os.ReadFile(out); !bytes.Equal(now, dstBefore) {
+				bad("roundtrip:strip-refused-but-destination-modified", fmt.Sprintf("CopyBinaryWithoutConfig returned %v and the destination changed from %d to %d bytes", err, len(dstBefore), len(now)))
+			}
+		}
+		return ok
+	}
+	got, gerr := os.ReadFile(dst)
+	switch {
+	case gerr != nil:
+		bad("roundtrip:strip-no-output", "CopyBinaryWithoutConfig returned nil but the destination is unreadable: "+gerr.Error())
+		return false
+	case !bytes.Equal(got, bin):
+		detail := fmt.Sprintf("stripped output has %d bytes, the original binary has %d", len(got), len(bin))
+		switch {
+		case bytes.Equal(got, before):
+			detail += "; the destination still holds the complete embedded file"
+		case len(got) > len(bin) && bytes.Equal(got[:len(bin)], bin):
+			detail += "; the original is followed by a stale tail of what the destination held before"
+		}
+		bad("roundtrip:strip-differs", detail)
+		return false
+	}
+	if !inPlace && !bytes.Equal(embNow, before) {
+		bad("roundtrip:source-modified", fmt.Sprintf("embedded file changed from %d to %d bytes while being stripped into another file", len(before), len(embNow)))
+	}
+	// the stripped output is a plain binary again ...
+	plain := !(len(bin) >= embed.FooterSize && bytes.HasSuffix(bin, embed.Magic[:]))
+	if plain {
+		var has bool
+		var herr error
+		if _, pv, _ := h.measure(func() { has, herr = embed.HasEmbeddedConfig(dst) }); pv == nil && herr == nil && has {
+			bad("roundtrip:stripped-still-has-config", "HasEmbeddedConfig is true for the stripped output")
+		}
+		if !h.readers(phase, ci, dst, got, how, &c36Model{Class: "no-trailer", bin: bin, keySuffix: class}) {
+			ok = false
+		}
+	}
+	// ... and can be embedded into again
+	if ok && plain {
+		c3 := c36Config(rng)
+		var aerr error
+		if _, pv, stk := h.measure(func() { aerr = embed.AppendConfig(dst, dst, c3) }); pv != nil {
+			bad("panic:AppendConfig", fmt.Sprintf("AppendConfig panicked on the stripped output: %v\n%s", pv, c36Stack(stk)))
+		} else if aerr != nil {
+			bad("roundtrip:append-error-after-strip", "AppendConfig fails on the stripped output: "+aerr.Error())
+		} else {
+			again, _ := os.ReadFile(dst)
+			if !h.readers(phase, ci, dst, again, how+", then AppendConfig in place on the stripped output",
+				&c36Model{Class: "valid", HasMagic: true, L: uint64(len(c3)), cfg: c3, bin: bin, keySuffix: class + "-then-embed"}) {
+				ok = false
+			}
+		}
+	}
+	if ok {
+		r.Add("strip_into_ok", 1)
+		if inPlace {
+			r.Add("strip_in_place_ok", 1)
+		}
+	}
+	return ok
+}
+
 // ---------------------------------------------------------------- the check
 
 func TestVerif_C36(t *testing.T) {
@@ -474,6 +651,7 @@ func TestVerif_C36(t *testing.T) {
 				r.Violation("roundtrip:source-modified", "rt", ci, fmt.Sprintf("source binary (%d bytes) is no longer intact after embedding into a distinct file (%s): now %d bytes, err=%v", len(b), alias, len(now), e), w)
 			}
 		}
+		curC, curB := c, b // what the embedded file currently designates
 		// re-embedding over the embedded binary in place: either refused, leaving the first
 		// embedding intact, or a new embedding whose original is the embedded file
 		if ok && rng.Intn(4) == 0 {
@@ -496,7 +674,16 @@ func TestVerif_C36(t *testing.T) {
 				r.Add("reembed_accepted", 1)
 				now, _ := os.ReadFile(dstArg)
 				ok = h.readers("rt", ci, dstArg, now, how+", then an accepted re-embed in place", &c36Model{Class: "valid", HasMagic: true, L: uint64(len(c2)), cfg: c2, bin: file, keySuffix: "@after-reembed"})
+				curC, curB = c2, file
 			}
+		}
+		// strip into every kind of destination
+		if ok {
+			real := other // the embedded file under its plain name
+			if aliased {
+				real = src
+			}
+			ok = h.stripInto("rt", ci, rng, real, curC, curB, how)
 		}
 		if ok {
 			r.Add("roundtrip_ok", 1)
@@ -599,6 +786,9 @@ func TestVerif_C36(t *testing.T) {
 	r.Require("roundtrip_ok", int64(r.N(1200, 60000)*7/10))
 	r.Require("roundtrip_ok_same_file_different_name", int64(r.N(1200, 60000)/6))
 	r.Require("reembed_refused", int64(r.N(1200, 60000)/10))
+	r.Require("strip_into_ok", int64(r.N(1200, 60000)*6/10))
+	r.Require("strip_in_place_ok", int64(r.N(1200, 60000)/6))
+	r.Require("strip_dest:existing-longer", int64(r.N(1200, 60000)/20))
 	r.Require("append_refused_binary_ends_in_magic", 5)
 	r.Require("hostile_length_files", int64(r.N(600, 20000)))
 	r.Require("files_length-exceeds-file", 50)
